@@ -14,6 +14,7 @@
 #include <stdarg.h>
 #include <sys/wait.h>
 #include <time.h>
+#include <sys/prctl.h>
 
 #define IN_SIM (cur != NULL && G.active)
 
@@ -594,6 +595,7 @@ pid_t usim_fork(void)
 				t->joined = 1;	/* joining it is an error */
 			}
 		}
+		prctl(PR_SET_PDEATHSIG, SIGKILL);
 		G.in_fork_child = 1;
 		G.solo_tid = -1;
 		G.stall_victim = -2;
